@@ -216,7 +216,7 @@ pub fn all_lenses() -> Vec<Lens> {
         Lens {
             name: "A5b-qualifiers-macro",
             prefixes: vec!["pkg:t/n?"],
-            alphabet: vec!["a=1", "A=2", "b=", "b=3", "ab=4", "c=x%26y", "a=%41", "!=1", "&", "a", "=", "%26"],
+            alphabet: vec!["a=1", "A=2", "b=", "b=3", "ab=4", "a_=5", "c=x%26y", "a=%41", "!=1", "&", "a", "=", "%26"],
             suffixes: vec!["", "#s"],
             n_quick: 5,
             n_thorough: 7,
@@ -224,7 +224,7 @@ pub fn all_lenses() -> Vec<Lens> {
         Lens {
             name: "A6-checksum-macro",
             prefixes: vec!["pkg:t/n?checksum=", "pkg:t/n?CheckSum="],
-            alphabet: vec!["a:", "A:", "b:", "é:", "É:", "ǅ:", "x", ":", ",", "00", "fF", "7", "g", "%3A", "%2C"],
+            alphabet: vec!["a:", "A:", "a1:", "b:", "é:", "É:", "ǅ:", "x", ":", ",", "00", "fF", "7", "g", "%3A", "%2C"],
             suffixes: vec![""],
             n_quick: 5,
             n_thorough: 7,
@@ -232,7 +232,7 @@ pub fn all_lenses() -> Vec<Lens> {
         Lens {
             name: "A7-typed-names",
             prefixes: vec!["pkg:cargo/", "pkg:gem/", "pkg:golang/", "pkg:maven/", "pkg:npm/", "pkg:nuget/", "pkg:PyPI/", "pkg:pypi/", "pkg:generic/"],
-            alphabet: vec!["a", "A", "-", "_", ".", "/", "@", "1", "É", "ǅ"],
+            alphabet: vec!["a", "A", "-", "_", ".", "/", "@", "1", "é", "É", "ǅ"],
             suffixes: vec![""],
             n_quick: 5,
             n_thorough: 7,
